@@ -60,8 +60,10 @@ def main():
         meta["confirmed"]["suite_passes_with_change"] = not bad
         meta["confirmed"]["suite_failures"] = bad[:5]
         if has_demo:
-            rc, out = sh("cargo test --offline --test seed_demo 2>&1 | tail -25", cwd=wt)
-            meta["confirmed"]["demo_fails_with_change"] = ("test result: FAILED" in out or "error: test failed" in out or rc != 0 and "panicked" in out)
+            rc, out = sh("cargo test --offline --test seed_demo 2>&1", cwd=wt)
+            out = out[-2500:]
+            # a demonstration that no longer compiles (compile-time properties) fails just as well
+            meta["confirmed"]["demo_fails_with_change"] = rc != 0
             meta["confirmed"]["demo_with_tail"] = out[-900:]
     finally:
         sh("git -C /repo worktree remove --force %s" % wt)
